@@ -7,11 +7,15 @@
 ** Parameters: kind=array|list|tuple   prop=C04|C05|C09|C10|C12
 **             maxlen=N (length bound; operations that would exceed it are not enabled)
 **             nvals=N  (element values 0..N-1, default 3)
-**             elem=int|probe|picky|str (probe: element type with constructor/destructor ledger;
+**             elem=int|probe|picky|str|plain|plain12 (probe: element type with constructor/destructor ledger;
 **                               picky: the same, but its assign REFUSES one poison value with
 **                               ValueError before it touches the target - failing pushes/sets
 **                               of the poison must leave contents, len and ledger unchanged;
-**                               Array and List only - a Tuple does not own its elements)
+**                               Array and List only - a Tuple does not own its elements;
+**                               plain / plain12: user structs of 16 / 12 bytes WITHOUT any instance (no New, Assign,
+**                               Cmp: the library's default memcpy assign, memcmp cmp); the normal alphabet over such
+**                               elements plus operations that hand the container an object of ANOTHER plain type -
+**                               see "foreign plain types" below; Array and List only)
 **             prop=C11: same state graph; the point is the iteration oracles that run in every state of every
 **                       mode anyway (forward count == len, backward = reverse of forward then Terminal)
 **                       plus: the i-th iterated item is the object get(i) returns
@@ -90,6 +94,30 @@ var Picky = Cello(Picky,
   Instance(C_Int,  Probe_C_Int),
   Instance(Show,   Probe_Show, NULL));
 
+/* ---- plain user structs: no instance at all (default assign = memcpy between equal types, else TypeError) ----
+** Element types PlainP (16 bytes) and PlainP12 (12 bytes: an Array rounds its slot to 16, a List does not).  FOREIGN
+** types, none of which may ever become an element of a container of P: PlainQ (16 bytes: same size, same Array slot
+** layout as PlainP), PlainQ12 (12 bytes: same as PlainP12; same rounded slot as PlainP), PlainR24 (another slot size),
+** the other P type, and Int.  Refused operations (self-loops, judged like every failed operation: an exception from
+** the accept set - TypeError is what the pinned tree raises, ValueError accepted - and contents, len, heap-block
+** balance and exception depth unchanged; silent success is never accepted):
+**     push / append / set(i) / push_at(i) of one foreign object
+**     concat from an Array / List / Tuple holding 1..2 foreign objects (the FIRST source element is refused, so
+**     nothing can have been appended; "concat is not atomic" is a different, known finding)
+** Not refused: assign(A, container of Q) CONVERTS A to element type Q like every cross-type assign; it is applied to
+** a copy of A (side object): iter_type, len, every element's type and bytes must be the source's, A itself unchanged.
+** In every state of every element kind: iter_type(A) is the element type and every element handed out by iteration
+** and by get() carries that type (check_seq). */
+struct PlainP   { int64_t val; int64_t pad; };
+struct PlainQ   { double lo, hi; };
+struct PlainP12 { int32_t val; int32_t a, b; };
+struct PlainQ12 { float x, y, z; };
+struct PlainR24 { int64_t a, b, c; };
+var PlainP = Cello(PlainP); var PlainQ = Cello(PlainQ); var PlainP12 = Cello(PlainP12); var PlainQ12 = Cello(PlainQ12); var PlainR24 = Cello(PlainR24);
+#define PLAIN_PAD 0x5A5A5A5A
+enum { FT_Q, FT_Q12, FT_R24, FT_OTHERP, FT_INT, FT_N };
+static const char* FTN[] = { "PlainQ", "PlainQ12", "PlainR24", "other-P", "Int" };
+
 enum { K_ARRAY = 0, K_LIST = 1, K_TUPLE = 2 };
 static const char* KN[] = { "array", "list", "tuple" };
 
@@ -105,6 +133,9 @@ static var* R;                /* stack-resident root slots (scanned by the colle
 static struct seq MA, MB;
 
 static int kindA, kindB, maxlen, nvals, two, same, probe, picky, alias = 15, poisonconcat;
+static int plain;              /* elem=plain: 1 (PlainP, 16 bytes) / elem=plain12: 2 (PlainP12, 12 bytes) */
+static var foreignobj[FT_N][2];   /* two distinct objects of every foreign type */
+static var foreigntype[FT_N];
 static var poisonobj;         /* an Int carrying the value Picky refuses */
 static var valobj_int0;       /* an Int 0 (source element for the poison concat) */
 static int propC05, propC10, propC11, propC12;
@@ -170,7 +201,7 @@ void  __wrap_free(void* p) { if (p) vf_blocks--; __real_free(p); }
 
 static char labelbuf[200];
 static const char* LK(int kind, const char* oracle) {
-  snprintf(labelbuf, sizeof labelbuf, "%s/%s/%s/%s", KN[kind], (probe && kind != K_TUPLE) ? (picky ? "picky" : "probe") : (strel && kind != K_TUPLE) ? "str" : "int", lastop, oracle);
+  snprintf(labelbuf, sizeof labelbuf, "%s/%s/%s/%s", KN[kind], (probe && kind != K_TUPLE) ? (picky ? "picky" : "probe") : (strel && kind != K_TUPLE) ? "str" : (plain && kind != K_TUPLE) ? (plain == 2 ? "plain12" : "plain") : "int", lastop, oracle);
   return labelbuf;
 }
 static const char* L(const char* oracle) { return LK(kindA, oracle); }
@@ -228,6 +259,8 @@ static volatile bool g_b; static volatile int g_int;
 static int64_t elemval(var e) {
   if (type_of(e) is Ref) e = deref(e);
   if (type_of(e) is String) return atoi(c_str(e));      /* elem=str: the values are the strings "0".."3" */
+  if (type_of(e) is PlainP) return ((struct PlainP*)e)->val;
+  if (type_of(e) is PlainP12) return ((struct PlainP12*)e)->val;
   return c_int(e);
 }
 
@@ -353,6 +386,16 @@ static int check_seq(var x, int kind, const int* v, int n, const char* who, int 
   for (int i = 0; i < n; i++) {
     if (itbuf[i] != v[i]) { vf_violation(LK(kind, "iter-value"), NULL, "%s: item %d of the iteration is %" PRId64 ", reference has %d", who, i, itbuf[i], v[i]); return 1; }
   }
+  /* every element of an Array / List carries the container's element type: iter_type(x) is that type and every object
+     the iteration hands out says so in its header (a Tuple declares no element type) */
+  if (kind != K_TUPLE) {
+    e = VF_CATCH(g_var = iter_type(x));
+    if (e) { vf_violation(LK(kind, "iter_type-raises"), NULL, "%s: iter_type raised %s", who, vf_exc_name(e)); return 1; }
+    if (g_var isnt ET) { vf_violation(LK(kind, "iter_type"), NULL, "%s: iter_type is %s, the container was built with element type %s", who, c_str(g_var), c_str(ET)); return 1; }
+    for (int i = 0; i < n && i < LADMAX + 16; i++) {
+      if (type_of(fwdptr[i]) isnt ET) { corrupt = 1; vf_violation(LK(kind, "iter-item-type"), NULL, "%s: item %d of the iteration has type %s, iter_type is %s", who, i, c_str(type_of(fwdptr[i])), c_str(ET)); return 1; }
+    }
+  }
 
   /* backward iteration = exact reverse of the forward walk, then Terminal (off for the same-object Tuple
      dimension: Tuple cursors are found by pointer identity, D16) */
@@ -380,7 +423,7 @@ static int check_seq(var x, int kind, const int* v, int n, const char* who, int 
     e = VF_CATCH({ g_var = get(x, $I(i)); g_i64 = elemval(g_var); });
     if (e) { vf_violation(LK(kind, "get-raises"), NULL, "%s: get(%d) raised %s, len is %d", who, i, vf_exc_name(e), n); return 1; }
     if (g_i64 != v[i]) { vf_violation(LK(kind, "get-value"), NULL, "%s: get(%d)=%" PRId64 ", reference has %d", who, i, (int64_t)g_i64, v[i]); return 1; }
-    if (kind != K_TUPLE && type_of(g_var) isnt ET) { vf_violation(LK(kind, "get-type"), NULL, "%s: get(%d) is not of the element type", who, i); return 1; }
+    if (kind != K_TUPLE && type_of(g_var) isnt ET) { corrupt = 1; vf_violation(LK(kind, "get-type"), NULL, "%s: get(%d) has type %s, iter_type is %s", who, i, c_str(type_of(g_var)), c_str(ET)); return 1; }
     e = VF_CATCH({ g_var = get(x, $I(-(int64_t)(i + 1))); g_i64 = elemval(g_var); });
     if (e) { vf_violation(LK(kind, "get-negative-raises"), NULL, "%s: get(%d) raised %s, len is %d", who, -(i + 1), vf_exc_name(e), n); return 1; }
     if (g_i64 != v[n - 1 - i]) { vf_violation(LK(kind, "get-negative-value"), NULL, "%s: get(%d)=%" PRId64 ", reference has %d", who, -(i + 1), (int64_t)g_i64, v[n - 1 - i]); return 1; }
@@ -518,7 +561,7 @@ static size_t canon_one(var x, struct seq* m, char* buf, size_t cap) {
 #if WB
   if (m->kind == K_ARRAY) {
     struct Array* a = x; o += snprintf(buf + o, cap - o, "n%zu/s%zu", a->nitems, a->nslots);
-    if (m == &MA && ET isnt Int) { int vac = vac_hw - (int)a->nitems; o += snprintf(buf + o, cap - o, "/vacated%d%c", vac > 0 ? vac : 0, vac > 0 ? vac_kind : '-'); }
+    if (m == &MA && ET isnt Int && !plain) { int vac = vac_hw - (int)a->nitems; o += snprintf(buf + o, cap - o, "/vacated%d%c", vac > 0 ? vac : 0, vac > 0 ? vac_kind : '-'); }
   }
 #endif
   int64_t t[MAXN + 8];
@@ -606,6 +649,7 @@ enum { T_PUSH, T_POP, T_APPEND, T_SET, T_PUSHAT, T_POPAT, T_REM, T_RESIZE, T_SOR
        T_AL_PUSH, T_AL_APPEND, T_AL_SET, T_AL_PUSHAT, T_AL_CONCAT_SELF, T_AL_ASSIGN_SELF, T_AL_REM, T_AL_MEM,
        T_ASSIGN_OTHER, T_B_ASSIGN_OTHER, T_DUPTUPLE,
        T_P_POISON, T_P_CONCAT, T_GET, T_MEM, T_ASSIGN_VIEW,
+       T_Q_ELEM, T_Q_CONCAT, T_Q_ASSIGN,
        T_F_IDX, T_F_REM_ABSENT, T_F_WRONG, T_F_NULL, T_F_NULLIDX, T_F_CONCAT_NULL, T_F_ASSIGN_NULL, T_F_BADSRC, T_F_STACK };
 enum { FO_GET, FO_SET, FO_POPAT, FO_PUSHAT, FO_PUSH, FO_APPEND };
 static const char* FON[] = { "get", "set", "pop_at", "push_at", "push", "append" };
@@ -637,7 +681,7 @@ static void srcname(int s, char* buf, size_t cap) {
 
 static void make_alphabet(void) {
   char sn[24];
-  int nk = (probe || strel) ? 2 : 3;          /* source kinds: a Tuple cannot own Probe elements (and holds Int objects, which a String element refuses) */
+  int nk = (probe || strel || plain) ? 2 : 3;          /* source kinds: a Tuple cannot own Probe elements (and holds Int objects, which a String or plain element refuses) */
   for (int v = 0; v < nvals; v++) addop(T_PUSH, v, 0, 0, "push(%d)", v);
   addop(T_POP, 0, 0, 0, "pop");
   for (int v = 0; v < nvals; v++) addop(T_APPEND, v, 0, 0, "append(%d)", v);
@@ -694,7 +738,7 @@ static void make_alphabet(void) {
     /* sources that are Tuples holding ONE OBJECT TWICE (iterating such a Tuple is the known defect D16, but len/get work,
        and assign / new copy through len+get): a a, a a b, a b a.  Run in a forked child under a 3 s limit, in the empty
        state only (the calls do not depend on A) */
-    if (!probe) for (int w = 0; w < 3; w++) for (int pat = 0; pat < 4; pat++) {
+    if (!probe && !plain) for (int w = 0; w < 3; w++) for (int pat = 0; pat < 4; pat++) {
       static const char* wn[] = { "assign(fresh,T)", "assign(non-empty,T)", "new(kind,Int,T...)" };
       static const char* pn[] = { "(a,a)", "(a,a,b)", "(a,b,a)", "(a,b,a,c)" };
       addop(T_DUPTUPLE, w, pat, 0, "%s T=%s same object twice", wn[w], pn[pat]);
@@ -715,6 +759,18 @@ static void make_alphabet(void) {
     for (int i = 1; i < maxlen; i++) addop(T_P_POISON, FO_PUSHAT, 0, i, "push_at(refused value,%d)", i);
     for (int i = 1; i < maxlen; i++) addop(T_P_POISON, FO_SET, 0, i, "set(%d,refused value)", i);
     if (poisonconcat) for (int k = 0; k < 3; k++) addop(T_P_CONCAT, k, 0, 0, "concat(%s[0,refused value])", KN[k]);
+  }
+  if (plain) {
+    /* objects of a foreign plain type (or an Int): refused as an element, refused as the elements of a concat source;
+       assign from a container of a foreign type converts (side object) */
+    static const int fo[] = { FO_PUSH, FO_APPEND, FO_SET, FO_PUSHAT };
+    for (int ft = 0; ft < FT_N; ft++) {
+      for (int j = 0; j < 4; j++) addop(T_Q_ELEM, fo[j], ft, 0, "%s(%s object)", FON[fo[j]], FTN[ft]);
+      for (int i = 1; i < maxlen; i++) addop(T_Q_ELEM, FO_SET, ft, i, "set(%d,%s object)", i, FTN[ft]);
+      for (int i = 1; i < maxlen; i++) addop(T_Q_ELEM, FO_PUSHAT, ft, i, "push_at(%s object,%d)", FTN[ft], i);
+      for (int k = 0; k < 3; k++) for (int sl = 1; sl <= 2; sl++) addop(T_Q_CONCAT, k, ft, sl, "concat(%s of %d %s)", KN[k], sl, FTN[ft]);
+      for (int k = 0; k < 2; k++) for (int sl = 0; sl <= 2; sl++) addop(T_Q_ASSIGN, k, ft, sl, "copy-of-A := %s of %d %s", KN[k], sl, FTN[ft]);
+    }
   }
   if (two) {
     addop(T_B_COPY, 0, 0, 0, "B=copy(A)");
@@ -802,7 +858,14 @@ static int fail_end(var e, var a1, var a2, var a3, const char* what) {
   if (e is NULL) {
     int64_t t[MAXN + 8]; int n = snap(CA, t, MAXN + 8);
     seqstr(FB.v, FB.n, b1, sizeof b1); if (n >= 0) seqstr(t, n, b2, sizeof b2); else snprintf(b2, sizeof b2, "(unreadable)");
-    vf_violation(L("no-exception"), NULL, "%s did not raise; contents %s -> %s", what, b1, b2); return VF_BAD;
+    /* which elements are not of the element type now? (a foreign object taken over as it is) */
+    char b3[120] = ""; 
+    if (kindA != K_TUPLE) {
+      var x = VF_CATCH({ size_t nn = len(CA); for (size_t i = 0; i < nn && i < MAXN; i++) { var it = get(CA, $I(i)); if (type_of(it) isnt ET) { snprintf(b3, sizeof b3, "; element %zu of %zu now has type %s, iter_type is %s", i, nn, c_str(type_of(it)), c_str(iter_type(CA))); break; } } });
+      (void)x;
+      if (b3[0]) corrupt = 1;
+    }
+    vf_violation(L("no-exception"), NULL, "%s did not raise; contents %s -> %s%s", what, b1, b2, b3); return VF_BAD;
   }
   if (e isnt a1 and e isnt a2 and e isnt a3) { vf_violation(L("wrong-exception"), NULL, "%s raised %s", what, vf_exc_name(e)); return VF_BAD; }
   var x = VF_CATCH(g_sz = len(CA));
@@ -1043,6 +1106,13 @@ static void duptuple_child(void* arg) {
   _exit(0);
 }
 
+/* number of items a forward iteration yields, -1 if one of them is not of type T */
+static int count_items_of_type(var y, var T) {
+  int c = 0;
+  foreach (it in y) { if (type_of(it) isnt T) return -1; if (++c > MAXN + 8) break; }
+  return c;
+}
+
 static int apply_op(int op);
 static int apply(int op) {
   int n0 = MA.n, t = ops[op].t;
@@ -1167,7 +1237,7 @@ static int apply_op(int op) {
     if (m > n + 2) return VF_SKIP;
     if (m > maxlen && kindA != K_ARRAY) return VF_SKIP;
     /* List zero-extends with elements that were never constructed: outside the ledger's model */
-    if ((probe || strel) && kindA == K_LIST && m > n) return VF_SKIP;
+    if ((probe || strel || plain) && kindA == K_LIST && m > n) return VF_SKIP;   /* (plain: a zero-filled struct is not one of the value carriers, whose padding field is non-zero) */
     if (kindA == K_TUPLE || m > n) return apply_resize_unspecified(m);
     setop(m == 0 ? "resize/0" : m == n ? "resize/len" : "resize/truncate");
     e = VF_CATCH(resize(CA, (size_t)m));
@@ -1377,6 +1447,57 @@ static int apply_op(int op) {
       }
     }
     return fail_end(e, ValueError, ValueError, ValueError, o->name); }
+
+  /* ---- objects of a foreign plain type (elem=plain|plain12): refused as elements, nothing may change ---- */
+  case T_Q_ELEM: {
+    int i = (int)o->i;
+    if ((o->a == FO_SET || o->a == FO_PUSHAT) && i >= n) return VF_SKIP;
+    setop("%s/foreign-type-element-%s", FON[o->a], FTN[o->b]);
+    var q = foreignobj[o->b][0];
+    fail_begin();
+    switch (o->a) {
+    case FO_PUSH:   e = VF_CATCH(push(CA, q)); break;
+    case FO_APPEND: e = VF_CATCH(append(CA, q)); break;
+    case FO_SET:    e = VF_CATCH(set(CA, $I(i), q)); break;
+    default:        e = VF_CATCH(push_at(CA, q, $I(i))); break;
+    }
+    return fail_end(e, TypeError, ValueError, ValueError, o->name); }
+  case T_Q_CONCAT: {
+    int sl = (int)o->i;
+    if (n + sl > maxlen) return VF_SKIP;
+    setop("concat/foreign-type-source-%s-of-%s", KN[o->a], FTN[o->b]);
+    var src = o->a == K_TUPLE ? (var)new_raw(Tuple) : new_raw_with(o->a == K_ARRAY ? Array : List, tuple(foreigntype[o->b]));
+    for (int k = 0; k < sl; k++) push(src, foreignobj[o->b][k]);
+    keep_temp(src, 0);
+    fail_begin();
+    e = VF_CATCH(concat(CA, src));
+    return fail_end(e, TypeError, ValueError, ValueError, o->name); }
+  case T_Q_ASSIGN: {
+    /* assign from a container of a foreign type CONVERTS: applied to a copy of A, which must become exactly the source */
+    int sl = (int)o->i;
+    setop("assign/converts-to-%s-from-%s", FTN[o->b], KN[o->a]);
+    var FT = foreigntype[o->b];
+    var src = new_raw_with(o->a == K_ARRAY ? Array : List, tuple(FT));
+    for (int k = 0; k < sl; k++) push(src, foreignobj[o->b][k]);
+    keep_temp(src, 0);
+    var y = build(kindA, MA.v, MA.n);
+    keep_temp(y, 0);
+    e = VF_CATCH(assign(y, src));
+    if (e) return raised(e, "assign(copy of A, container of another plain type)");
+    e = VF_CATCH({ g_var = iter_type(y); g_sz = len(y); });
+    if (e) return raised(e, "iter_type/len after a converting assign");
+    if (g_var isnt FT) { vf_violation(L("element-type"), NULL, "after assign from a %s of %s iter_type is %s", KN[o->a], c_str(FT), c_str(g_var)); return VF_BAD; }
+    if (g_sz != (size_t)sl) { vf_violation(L("len"), NULL, "after assign from a %s of %d %s len is %zu", KN[o->a], sl, c_str(FT), (size_t)g_sz); return VF_BAD; }
+    for (int k = 0; k < sl; k++) {
+      e = VF_CATCH(g_var = get(y, $I(k)));
+      if (e) return raised(e, "get after a converting assign");
+      if (type_of(g_var) isnt FT) { vf_violation(L("get-type"), NULL, "element %d has type %s after assign from a %s of %s", k, c_str(type_of(g_var)), KN[o->a], c_str(FT)); return VF_BAD; }
+      if (memcmp(g_var, foreignobj[o->b][k], size(FT)) != 0) { vf_violation(L("wrong-contents"), NULL, "element %d does not hold the bytes of the source's element", k); return VF_BAD; }
+    }
+    { e = VF_CATCH(g_int = count_items_of_type(y, FT));
+      if (e) return raised(e, "iteration after a converting assign");
+      if (g_int != sl) { vf_violation(L("iter-item-type"), NULL, "iteration after assign from a %s of %d %s: %s", KN[o->a], sl, c_str(FT), g_int < 0 ? "an item of another type" : "wrong item count"); return VF_BAD; } }
+    return VF_OK; }
 
   /* ---- second container ---- */
   case T_B_COPY:
@@ -2039,19 +2160,37 @@ int main(int argc, char** argv) {
   same = (int)vf_param_i("same", 0);
   picky = vf_param_is("elem", "picky", "int");
   strel = vf_param_is("elem", "str", "int");
+  plain = vf_param_is("elem", "plain", "int") ? 1 : vf_param_is("elem", "plain12", "int") ? 2 : 0;
   probe = picky || vf_param_is("elem", "probe", propC05 ? "probe" : "int");
   alias = (int)vf_param_i("alias", 15);   /* all aliasing calls: the three defects they exposed are repaired in /repo (4a13eaf, 67f5339, 88e396b) */
   poisonconcat = (int)vf_param_i("poisonconcat", 0);
   const char* mode = vf_param("mode", "bfs");
+  if (plain && (kindA == K_TUPLE || two)) { fprintf(stderr, "h_seq: elem=plain|plain12 is for one array or list\n"); _exit(2); }
   if (probe && (kindA == K_TUPLE || (two && kindB == K_TUPLE))) { fprintf(stderr, "h_seq: a Tuple does not own its elements; elem=probe is for array and list\n"); _exit(2); }
   if (two && (kindA == K_TUPLE) != (kindB == K_TUPLE)) { fprintf(stderr, "h_seq: two=1 pairs array/list with array/list, or tuple with tuple (a Tuple assigned from an Array references the Array's storage)\n"); _exit(2); }
   if (same && kindA != K_TUPLE) same = 0;
   vf_led_reset();
-  ET = picky ? Picky : probe ? Probe : strel ? String : Int;
+  ET = picky ? Picky : probe ? Probe : strel ? String : plain == 1 ? PlainP : plain == 2 ? PlainP12 : Int;
   poisonobj = new_raw(Int, $I(PICKY_POISON));
   valobj_int0 = new_raw(Int, $I(0));
 
-  for (int v = 0; v <= nvals; v++) { char d[4]; snprintf(d, sizeof d, "%d", v); valobj[v] = strel ? (var)new_raw(String, $S(d)) : (var)new_raw(ET, $I(v)); }
+  for (int v = 0; v <= nvals; v++) {
+    char d[4]; snprintf(d, sizeof d, "%d", v);
+    if (plain == 1) { struct PlainP* p = alloc_raw(PlainP); p->val = v; p->pad = PLAIN_PAD; valobj[v] = p; }
+    else if (plain == 2) { struct PlainP12* p = alloc_raw(PlainP12); p->val = v; p->a = PLAIN_PAD; p->b = -v; valobj[v] = p; }
+    else valobj[v] = strel ? (var)new_raw(String, $S(d)) : (var)new_raw(ET, $I(v));
+  }
+  if (plain) {
+    foreigntype[FT_Q] = PlainQ; foreigntype[FT_Q12] = PlainQ12; foreigntype[FT_R24] = PlainR24; foreigntype[FT_OTHERP] = plain == 1 ? PlainP12 : PlainP; foreigntype[FT_INT] = Int;
+    for (int k = 0; k < 2; k++) {
+      struct PlainQ* q = alloc_raw(PlainQ); q->lo = 0.5 + k; q->hi = 1.5; foreignobj[FT_Q][k] = q;
+      struct PlainQ12* q2 = alloc_raw(PlainQ12); q2->x = 1.0f + k; q2->y = 2.0f; q2->z = 3.0f; foreignobj[FT_Q12][k] = q2;
+      struct PlainR24* r = alloc_raw(PlainR24); r->a = k; r->b = 1; r->c = 2; foreignobj[FT_R24][k] = r;
+      if (plain == 1) { struct PlainP12* p = alloc_raw(PlainP12); p->val = k; p->a = PLAIN_PAD; p->b = 0; foreignobj[FT_OTHERP][k] = p; }
+      else { struct PlainP* p = alloc_raw(PlainP); p->val = k; p->pad = PLAIN_PAD; foreignobj[FT_OTHERP][k] = p; }
+      foreignobj[FT_INT][k] = new_raw(Int, $I(k));
+    }
+  }
   if (probe && kindA == K_TUPLE) for (int v = 0; v <= nvals; v++) valobj[v] = new_raw(Int, $I(v));
   wrongobj = new_raw(String, $S("zz"));
   for (int v = 0; v < 3; v++) { ot_int[v] = new_raw(Int, $I(v)); ot_probe[v] = new_raw(Probe, $I(v)); }
@@ -2075,7 +2214,7 @@ int main(int argc, char** argv) {
   }
 
   make_alphabet();
-  snprintf(dname, sizeof dname, "seq[%s%s,%s,len<=%d,%dvals%s%s%s,%s]", KN[kindA], WB ? "" : "(black-box)", picky ? "picky" : probe ? "probe" : strel ? "str" : "int", maxlen, nvals,
+  snprintf(dname, sizeof dname, "seq[%s%s,%s,len<=%d,%dvals%s%s%s,%s]", KN[kindA], WB ? "" : "(black-box)", picky ? "picky" : probe ? "probe" : strel ? "str" : plain == 2 ? "plain12" : plain ? "plain" : "int", maxlen, nvals,
            two ? ",B=" : "", two ? KN[kindB] : "", same ? ",same-object" : light ? ",light-oracle" : "", prop);
   struct vf_domain d = { dname, nops, reset, cleanup, apply, check, canon, opname, nontrivial,
                          (size_t)vf_param_i("depth", 0), (size_t)vf_param_i("max_states", 0) };
